@@ -98,8 +98,12 @@ impl TraitCodegen<'_> {
                     let output = match &trait_fn.entrait_sig.sig.output {
                         syn::ReturnType::Default => Some(quote! { () }),
                         syn::ReturnType::Type(_, ty) => {
+                            // (what the type leaves open, `impl Trait`, is left to inference; the rest of it,
+                            // `Result<impl Send, Box<dyn Error>>`, is what the body is checked against)
+                            let mut ty = ty.as_ref().clone();
+                            syn::visit_mut::VisitMut::visit_type_mut(&mut ImplTraitToInfer, &mut ty);
                             let tokens = ty.to_token_stream();
-                            if mentions_impl_trait(tokens.clone()) {
+                            if matches!(ty, syn::Type::Infer(_)) || mentions_impl_trait(tokens.clone()) {
                                 None
                             } else {
                                 Some(tokens)
@@ -200,6 +204,24 @@ fn param_bindings(sig: &syn::Signature) -> Vec<syn::Ident> {
         }
     }
     bindings.0
+}
+
+/// `impl Trait` -> `_`
+struct ImplTraitToInfer;
+
+impl syn::visit_mut::VisitMut for ImplTraitToInfer {
+    fn visit_type_mut(&mut self, ty: &mut syn::Type) {
+        match ty {
+            syn::Type::ImplTrait(_) => {
+                *ty = syn::Type::Infer(syn::TypeInfer {
+                    underscore_token: Default::default(),
+                });
+            }
+            // (`fn(..) -> _` and `dyn Fn(..) -> _` are not types of a `let`)
+            syn::Type::BareFn(_) | syn::Type::TraitObject(_) => {}
+            ty => syn::visit_mut::visit_type_mut(self, ty),
+        }
+    }
 }
 
 /// `impl Trait` cannot be written as the type of a `let`
